@@ -18,13 +18,13 @@ def mc(rep, tier):
         "SPECIFICATION MCSpec\nCONSTANT MaxRows = 3\nCHECK_DEADLOCK FALSE\n"
         + "".join(f"INVARIANT {i}\n" for i in (
             "StackWellFormed", "ParentsFirst", "AcceptedIsUnambiguous", "RowErrorsLocated", "ErrorKindsKnown",
-            "GeneratedOnlyDocumented", "CountBesideRepeat", "OtherAfterSelect", "SpecClosure"))
+            "GeneratedOnlyDocumented", "CountBesideRepeat", "OtherAfterSelect", "SpecClosure", "IdentErrorsHaveIdent"))
         + "PROPERTY TableListResetOnEnd\n",
     )
     r = tlc.model_check("MC_RowParser", cfg, workers=16, required_actions=MC_ACTIONS, tag="mcrp", timeout=1500)
     if r["violation"]:
         raise tlc.MachineryError(f"RowParser design-level invariant {r['violation']} violated:\n{r['out'][-2000:]}")
-    rep.add_mc(r, "MC_RowParser MaxRows=3 name-pool=6 (exhaustive, 9 invariants + 1 action property)")
+    rep.add_mc(r, "MC_RowParser MaxRows=3 name-pool=6 (exhaustive, 10 invariants + 1 action property)")
     rep.bounds["mc"] = {"MaxRows": 3, "name_pool": 6, "row_shapes": 16}
 
 
@@ -108,7 +108,7 @@ def validate(rep, prop, outs, label):
     )
     rejected = []
     for i, o in enumerate(sub):
-        nontrivial = o["res"]["status"] == "ok" and any(e["ev"] == "row" and e["r"]["k"] != "skip" for e in o["trace"])
+        nontrivial = (o["res"]["status"] == "ok" or prop == "C17") and any(e["ev"] == "row" and e["r"]["k"] != "skip" for e in o["trace"])
         rep.case({"shapes": o["shapes"], "feat": o["feat"], "fmt": o["fmt"]}, nontrivial=nontrivial)
         if i not in acc:
             l, clause = info["progress"].get(i, (0, "unexplained_event"))
